@@ -261,6 +261,10 @@ func genA(tier string) []AScn {
 					b /= crossBehaviours
 				}
 				s.Bound = 0
+				if nh <= 1 {
+					// small documents also with one preemption: a lookup thread is descheduled between any two of its steps
+					s.Bound = 1
+				}
 				out = append(out, s)
 				// the same document with the last hop marked as the destination's answer (same address, possibly in the other byte form)
 				if nh > 0 {
